@@ -5,11 +5,8 @@ From Nitro Require Import Base.Bytes Own.Count Own.CountProofs Own.Optional.
 Import ListNotations.
 Local Open Scope list_scope.
 
-Definition oid (o : option nat) : option nat := o.
 Definition live_c (cs : list cell) (id : nat) : nat :=
   match nth_error cs id with Some x => if calive x then 1 else 0 | None => 0 end.
-Definition is_some {A} (o : option A) : bool := match o with Some _ => true | None => false end.
-Definition nsome {A} (l : list (option A)) : nat := length (filter is_some l).
 Definition b2n (b : bool) : nat := if b then 1 else 0.
 
 (* every cell is referred to by exactly as many optionals as it is alive (1 or 0); and the number of live
